@@ -480,6 +480,9 @@ fn decode_and_compare(
             &format!("{} vs {}", glyf_b.len(), offs.last().unwrap()),
             case(),
         );
+        // the byte ranges below are taken from the expected offsets: stop here rather than slice
+        // outside the table the library produced
+        return;
     }
     let mut h = Fnv::new();
     h.str(family);
@@ -1123,7 +1126,11 @@ fn overlap_family(run: &Run) {
         let case = || json!({"kind":"overlap","glyph":gspec_json(&spec)});
         let Ok(mut bytes) = dump_table(&to_write_glyph(&spec)) else { continue };
         let first_flag = 10 + 2 * contours.len() + 2 + instr.len();
-        bytes[first_flag] |= 0x40;
+        let Some(flag) = bytes.get_mut(first_flag) else {
+            run.violation("simple glyph encoding is shorter than its own header", "", case());
+            continue;
+        };
+        *flag |= 0x40;
         let r = guard(|| {
             let g = rg::SimpleGlyph::read(FontData::new(&bytes)).ok()?;
             Some((compare_simple(&g, contours, instr), g.has_overlapping_contours()))
@@ -1958,6 +1965,19 @@ fn path_family(run: &Run) {
 
 // ---------------------------------------------------------------------------
 
+/// Safety net around a whole family: every per-case call into the library is already guarded, but if
+/// anything still panics (also inside worker threads) the run must end with a verdict (exit 1), never
+/// with a harness stop.
+fn family(run: &Run, name: &str, f: impl FnOnce()) {
+    if let Err(p) = guard(f) {
+        run.violation(
+            &format!("panic outside the per-case guards (family {name}): {} in {}", p.kind(), p.site()),
+            &format!("{} ({}:{})", p.message, p.file, p.line),
+            json!({"kind": "family", "family": name}),
+        );
+    }
+}
+
 fn body(run: &Run, replay: Option<&Value>) {
     run.rule("a case is one glyph sequence handed to GlyfLocaBuilder (or one BezPath); its observation is the encoded glyph bytes after the bounding box (simple/composite) per glyph plus the location format, or the drawn segment list; non-trivial = at least one non-empty glyph was built and decoded; distinct = distinct encodings / drawn outlines");
     run.assume("oracle = the input description; canonical shortest length = optimal flag run-length use + 0/1/2 byte deltas, padded to 2 bytes");
@@ -2005,6 +2025,7 @@ fn body(run: &Run, replay: Option<&Value>) {
             return;
         }
     }
+    let _ = guard(|| {
     // side observation (not part of the statement, never a verdict): does try_from_iter store the union
     // of the component boxes?
     {
@@ -2027,15 +2048,20 @@ fn body(run: &Run, replay: Option<&Value>) {
         }
         let (_, loca, _) = b.build();
         let lb = dump_table(&loca).unwrap_or_default();
+        let len0 = match (lb.get(2), lb.get(3)) {
+            (Some(a), Some(b)) => u16::from_be_bytes([*a, *b]) as u32 * 2,
+            _ => u32::MAX,
+        };
         run.extra(
             "side_observation.contourless_simple_glyph_with_instructions",
-            json!({"glyph_0_length_in_glyf": u16::from_be_bytes([lb[2], lb[3]]) as u32 * 2, "instructions_given": 3, "note": "Glyph::from(SimpleGlyph) maps it to Glyph::Empty and SimpleGlyph::write_into writes nothing (same as fontTools)"}),
+            json!({"glyph_0_length_in_glyf": len0, "instructions_given": 3, "note": "Glyph::from(SimpleGlyph) maps it to Glyph::Empty and SimpleGlyph::write_into writes nothing (same as fontTools)"}),
         );
     }
-    overlap_family(run);
-    sequence_family(run);
-    composite_family(run);
-    run_family(run);
-    path_family(run);
-    simple_family(run);
+    });
+    family(run, "overlap_family", || overlap_family(run));
+    family(run, "sequence_family", || sequence_family(run));
+    family(run, "composite_family", || composite_family(run));
+    family(run, "run_family", || run_family(run));
+    family(run, "path_family", || path_family(run));
+    family(run, "simple_family", || simple_family(run));
 }
